@@ -77,6 +77,7 @@ typedef struct { OpusEncoder e; char sub_states[VERIF_EXTRA]; } enc_block;
    __CPROVER_assume(st.Fs == 8000 || st.Fs == 12000 || st.Fs == 16000 || st.Fs == 24000 || st.Fs == 48000); \
    __CPROVER_assume(st.celt_enc_offset >= (int)sizeof(OpusEncoder) && st.celt_enc_offset < (int)sizeof(OpusEncoder) + VERIF_EXTRA); \
    __CPROVER_assume(st.first == 0 || st.first == 1); \
+   __CPROVER_assume(0 <= st.delay_compensation && st.delay_compensation <= 48000 / 250);   /* opus_encoder_init: Fs/250 */ \
    /* old: an arbitrary second state that agrees with st on every setting (no 40 kB copy needed) */ \
    __CPROVER_assume(settings_eq_except(&st, &old, 0));
 
@@ -172,7 +173,7 @@ void h_getters_unknown(void)
    ret = opus_encoder_ctl(&st, OPUS_GET_SAMPLE_RATE_REQUEST, &got);
    __CPROVER_assert(ret == OPUS_OK && got == old.Fs && settings_eq_except(&st, &old, 0), "GET_SAMPLE_RATE reports Fs");
    ret = opus_encoder_ctl(&st, OPUS_GET_LOOKAHEAD_REQUEST, &got);
-   __CPROVER_assert(ret == OPUS_OK && got == old.Fs / 400 + (old.application != OPUS_APPLICATION_RESTRICTED_LOWDELAY ? old.delay_compensation : 0), "GET_LOOKAHEAD formula");
+   __CPROVER_assert(ret == OPUS_OK && got == (opus_int32)((long long)old.Fs / 400 + (old.application != OPUS_APPLICATION_RESTRICTED_LOWDELAY ? old.delay_compensation : 0)), "GET_LOOKAHEAD formula");
    ret = opus_encoder_ctl(&st, OPUS_GET_FINAL_RANGE_REQUEST, &ugot);
    __CPROVER_assert(ret == OPUS_OK && ugot == old.rangeFinal, "GET_FINAL_RANGE reports rangeFinal");
    ret = opus_encoder_ctl(&st, OPUS_GET_BANDWIDTH_REQUEST, &got);
